@@ -249,6 +249,9 @@ class P(Prop):
                 return f"fuel {row['fuel_total']} kg, component result {ft} kg"
             if row["co2_ttw"] is not None and abs(row["co2_ttw"] - r["co2"][0]) > 1e-9 * max(1.0, abs(r["co2"][0])):
                 return f"CO2 {row['co2_ttw']} kg, component result {r['co2'][0]} kg"
+            hrs = sum(v for name_, v in zip(scalar_fields(), r["scalars"]) if name_.startswith("running_hours"))
+            if abs(row["hours"] - hrs) > 1e-9 * max(1.0, hrs):
+                return f"running hours {row['hours']} h, component result {hrs} h"
             nox = dict(map(tuple, r["species"] or [])).get(2)
             if (row["nox"] or 0.0) != (nox or 0.0) and abs((row["nox"] or 0.0) - (nox or 0.0)) > 1e-9:
                 return f"NOx {row['nox']} kg, component result {nox} kg"
